@@ -121,7 +121,7 @@ def main(ctx):
     ctx.extra["library_cases"] = len(lib_cases)
     # every input permutation (<= 24) of a sample of the bags of 3 and 4 records
     big = [c for c in allcases if len(c["in"]) >= 3]
-    perm_cases = vlib.sample(ctx.rng, big, 20000 if thorough else 250)
+    perm_cases = vlib.sample(ctx.rng, big, 6000 if thorough else 250)
     run_replay(ctx, "perms", perm_cases, "lib", 1, procs=8, par=4, extra=["diskevery=8", "allperms=1"])
     ctx.extra["all_permutation_cases"] = len(perm_cases)
     multi = [c for c in allcases if len(c["in"]) >= 2]
@@ -139,7 +139,7 @@ def main(ctx):
 
     # T ---------------------------------------------------------------------------------------
     trace = ctx.path("trace.ndjson")
-    n = 240 if thorough else 21
+    n = 150 if thorough else 21
     p = ctx.harness(["record", "C06", "--out", trace, "--n", n, "--opt", "nbin=%d" % (n // 3), "--opt", "size=1000",
                      "--opt", "bindir=" + os.path.join(ctx.scratch, "bin"), "--opt", "distbatch=%d" % [7, 50, 2000][ctx.seed % 3]],
                     timeout=1500, check=False)
